@@ -30,13 +30,13 @@ Definition ev_decode (r : raw) : option ev :=
 (* ---- what the code asks: trace entries (code, args) ------------------------------------------ *)
 (* system calls *)
 Definition K_NOW := 1.        (* [t]                         steady clock read -> t *)
-Definition K_POLL := 2.       (* [timeout; fd1; ev1; ...]    poll *)
-Definition K_SEND := 3.       (* [fd; len; flags]            send *)
-Definition K_RECV := 4.       (* [fd; size] *)
-Definition K_SENDTO := 5.     (* [fd; len; dst] *)
-Definition K_RECVFROM := 6.   (* [fd; size] *)
-Definition K_ACCEPT := 7.     (* [fd] *)
-Definition K_SYS := 8.        (* [which; fd]                 set-up call: socket/bind/... see S_* *)
+Definition K_POLL := 2.       (* [timeout; ret; dt; fd1; ev1; ...]  poll *)
+Definition K_SEND := 3.       (* [fd; len; flags; ret]       send *)
+Definition K_RECV := 4.       (* [fd; size; ret] *)
+Definition K_SENDTO := 5.     (* [fd; len; dst; ret] *)
+Definition K_RECVFROM := 6.   (* [fd; size; ret] *)
+Definition K_ACCEPT := 7.     (* [fd; newfd] *)
+Definition K_SYS := 8.        (* [which; fd; errno]          set-up call: socket/bind/... see S_* *)
 (* results seen through the public API, handler invocations, ... : codes >= 20, defined by the users *)
 
 (* set-up system calls (never scripted; fail only through the fault overlay) *)
@@ -122,37 +122,37 @@ Definition sys_now : M Z :=
 Fixpoint flatten_fds (fds : list (Z * Z)) : list Z :=
   match fds with [] => [] | (fd, e) :: t => fd :: e :: flatten_fds t end.
 
-(* poll: returns (ret, errno, revents) *)
+(* poll: returns (ret, errno, revents); logged: time-out, result, ns it lasted, then the (fd, events) pairs *)
 Definition sys_poll (fds : list (Z * Z)) (timeout_ms : Z) : M (Z * Z * list Z) :=
   fun s => match o_script s with
            | EvPoll r e dt rev :: sc =>
-               let '(_, s') := emit K_POLL (timeout_ms :: flatten_fds fds) (set_script s sc (o_now s + dt)) in
+               let '(_, s') := emit K_POLL (timeout_ms :: r :: dt :: flatten_fds fds) (set_script s sc (o_now s + dt)) in
                (Ok (r, e, rev), s')
            | _ => (Bad 2, s)
            end.
 
 Definition sys_send (fd len flags : Z) : M (Z * Z) :=
   fun s => match o_script s with
-           | EvSend r e :: sc => let '(_, s') := emit K_SEND [fd; len; flags] (set_script s sc (o_now s)) in (Ok (r, e), s')
+           | EvSend r e :: sc => let '(_, s') := emit K_SEND [fd; len; flags; r] (set_script s sc (o_now s)) in (Ok (r, e), s')
            | _ => (Bad 3, s)
            end.
 
 Definition sys_recv (fd size : Z) : M (Z * Z) :=
   fun s => match o_script s with
-           | EvRecv r e :: sc => let '(_, s') := emit K_RECV [fd; size] (set_script s sc (o_now s)) in (Ok (r, e), s')
+           | EvRecv r e :: sc => let '(_, s') := emit K_RECV [fd; size; r] (set_script s sc (o_now s)) in (Ok (r, e), s')
            | _ => (Bad 4, s)
            end.
 
 Definition sys_sendto (fd len dst : Z) : M (Z * Z) :=
   fun s => match o_script s with
-           | EvSendTo r e :: sc => let '(_, s') := emit K_SENDTO [fd; len; dst] (set_script s sc (o_now s)) in (Ok (r, e), s')
+           | EvSendTo r e :: sc => let '(_, s') := emit K_SENDTO [fd; len; dst; r] (set_script s sc (o_now s)) in (Ok (r, e), s')
            | _ => (Bad 5, s)
            end.
 
 Definition sys_recvfrom (fd size : Z) : M (Z * Z * Z) :=
   fun s => match o_script s with
            | EvRecvFrom r e src :: sc =>
-               let '(_, s') := emit K_RECVFROM [fd; size] (set_script s sc (o_now s)) in (Ok (r, e, src), s')
+               let '(_, s') := emit K_RECVFROM [fd; size; r] (set_script s sc (o_now s)) in (Ok (r, e, src), s')
            | _ => (Bad 6, s)
            end.
 
@@ -164,8 +164,9 @@ Definition alloc_fd (s : os) : os :=
 Definition sys_accept (fd : Z) : M (Z * Z * Z) :=
   fun s => match o_script s with
            | EvAccept e peer :: sc =>
-               let '(_, s') := emit K_ACCEPT [fd] (set_script s sc (o_now s)) in
-               if e =? 0 then (Ok (o_nextfd s', 0, peer), alloc_fd s') else (Ok (-1, e, peer), s')
+               let nfd := if e =? 0 then o_nextfd s else -1 in
+               let '(_, s') := emit K_ACCEPT [fd; nfd] (set_script s sc (o_now s)) in
+               if e =? 0 then (Ok (nfd, 0, peer), alloc_fd s') else (Ok (-1, e, peer), s')
            | _ => (Bad 7, s)
            end.
 
@@ -179,23 +180,16 @@ Definition bump_nsys (s : os) : os :=
 
 (* returns 0 on success, else the errno (> 0) *)
 Definition sys_setup (which fd : Z) : M Z :=
-  fun s => let '(_, s1) := emit K_SYS [which; fd] s in
-           let idx := o_nsys s1 in
-           let s2 := bump_nsys s1 in
-           match lookup idx (o_faults s2) with
-           | Some e => (Ok e, s2)
-           | None => (Ok 0, s2)
-           end.
+  fun s => let err := match lookup (o_nsys s) (o_faults s) with Some e => e | None => 0 end in
+           let '(_, s1) := emit K_SYS [which; fd; err] s in
+           (Ok err, bump_nsys s1).
 
 (* socket(): returns (fd or -1, errno) *)
 Definition sys_socket : M (Z * Z) :=
-  fun s => let '(_, s1) := emit K_SYS [S_SOCKET; o_nextfd s] s in
-           let idx := o_nsys s1 in
+  fun s => let err := match lookup (o_nsys s) (o_faults s) with Some e => e | None => 0 end in
+           let '(_, s1) := emit K_SYS [S_SOCKET; o_nextfd s; err] s in
            let s2 := bump_nsys s1 in
-           match lookup idx (o_faults s2) with
-           | Some e => (Ok (-1, e), s2)
-           | None => (Ok (o_nextfd s2, 0), alloc_fd s2)
-           end.
+           if err =? 0 then (Ok (o_nextfd s2, 0), alloc_fd s2) else (Ok (-1, err), s2).
 
 (* close() result is ignored by the library *)
 Definition sys_close (fd : Z) : M unit := _ <- sys_setup S_CLOSE fd ;; ret tt.
